@@ -30,4 +30,14 @@ theorem C20_peek_agrees (legacy : Bool) (cat : Cat) (f : AnyFrame) (ch : PyVal) 
       Frame.frameParts bs = (Spec.kindOctet f, c, some (bs.length - 8)) ∧ 8 ≤ bs.length := by
   exact Proofs.frameParts_peek_agrees legacy cat f ch bs hf h
 
+/-- every body frame the encoder produces, EMPTY ONES INCLUDED, is accepted by the decoder and
+consumed completely on the peeked channel -/
+theorem C20_body_accepted (legacy : Bool) (cat : Cat) (b : Bytes) (hl : b.length < 2 ^ 32)
+    (ch : Nat) (hc : ch < 65536) (rest : Bytes) :
+    ∃ bs, Frame.marshal legacy cat (.body (.bytes b)) (.int ch) = .ok bs ∧
+      Frame.frameParts bs = (3, ch, some (bs.length - 8)) ∧
+      Frame.unmarshal cat (bs ++ rest) = .ok (bs.length, ch, .body (.bytes b)) := by
+  obtain ⟨bs, hm, _, hp, hu⟩ := Proofs.body_roundtrip_any legacy cat b hl ch hc rest
+  exact ⟨bs, hm, hp, hu⟩
+
 end Pamqp.Props
